@@ -532,3 +532,50 @@ func resolveBuffers(file []byte) (string, error) {
 	}
 	return canon(walk(f.Data)), nil
 }
+
+// fileViewInSavedGraph looks up, in a saved graph file, the buffer view that holds
+// the current value of the parameter.File node id, and returns its bytes and the
+// bytes from its start to the end of its buffer.
+func fileViewInSavedGraph(file []byte, id string) (view, toEnd []byte, ok bool) {
+	var f struct {
+		Buffers []struct {
+			URI string `json:"uri"`
+		} `json:"buffers"`
+		BufferViews []struct {
+			Buffer     int `json:"buffer"`
+			ByteOffset int `json:"byteOffset"`
+			ByteLength int `json:"byteLength"`
+		} `json:"bufferViews"`
+		Data struct {
+			Nodes map[string]struct {
+				Data map[string]any `json:"data"`
+			} `json:"nodes"`
+		} `json:"data"`
+	}
+	if json.Unmarshal(file, &f) != nil {
+		return nil, nil, false
+	}
+	n, found := f.Data.Nodes[id]
+	if !found {
+		return nil, nil, false
+	}
+	idx, isNum := n.Data["$CurrentValue"].(float64)
+	if !isNum || int(idx) < 0 || int(idx) >= len(f.BufferViews) {
+		return nil, nil, false
+	}
+	bv := f.BufferViews[int(idx)]
+	if bv.Buffer < 0 || bv.Buffer >= len(f.Buffers) {
+		return nil, nil, false
+	}
+	const pre = "base64,"
+	uri := f.Buffers[bv.Buffer].URI
+	k := strings.Index(uri, pre)
+	if k < 0 {
+		return nil, nil, false
+	}
+	raw, err := base64.StdEncoding.DecodeString(uri[k+len(pre):])
+	if err != nil || bv.ByteOffset+bv.ByteLength > len(raw) {
+		return nil, nil, false
+	}
+	return raw[bv.ByteOffset : bv.ByteOffset+bv.ByteLength], raw[bv.ByteOffset:], true
+}
